@@ -52,13 +52,13 @@ IsOrd(x) == x.o \in {"ord", "tord"}
 RECURSIVE SeqsOfLen(_)
 SeqsOfLen(n) == IF n = 0 THEN {<<>>} ELSE { Append(s, o) : s \in SeqsOfLen(n - 1), o \in Ops }
 \* well-formed: each variable ordered at most once and used only after it was ordered; at most one
-\* combinator, over all variables; the combinator result awaited only after it exists
+\* combinator, over the (at least two) variables ordered before it; the combinator result awaited only after it exists
 WF(s) ==
   /\ \A i, j \in 1..Len(s) : (i # j /\ IsOrd(s[i]) /\ IsOrd(s[j])) => s[i].v # s[j].v
   /\ \A i \in 1..Len(s) : (s[i].o \in {"await", "tawait", "cancel"} /\ s[i].v \in Vars)
                               => \E j \in 1..(i - 1) : IsOrd(s[j]) /\ s[j].v = s[i].v
   /\ \A i, j \in 1..Len(s) : (i # j /\ s[i].o = "comb") => s[j].o # "comb"
-  /\ \A i \in 1..Len(s) : s[i].o = "comb" => \A v \in Vars : \E j \in 1..(i - 1) : IsOrd(s[j]) /\ s[j].v = v
+  /\ \A i \in 1..Len(s) : s[i].o = "comb" => Cardinality({ j \in 1..(i - 1) : IsOrd(s[j]) }) >= 2
   /\ \A i \in 1..Len(s) : (s[i].o \in {"await", "tawait"} /\ s[i].v = W) => \E j \in 1..(i - 1) : s[j].o = "comb"
   /\ IsOrd(s[1])
 \* WF is prefix-closed, so well-formed scripts are built by extension (the unfiltered product is too large)
@@ -135,10 +135,11 @@ Plain(r) == [r |-> r, pending |-> <<>>, cancelled |-> <<>>]
 \* Promise.kind([x_1..x_NV]) at call time
 CombCall(st, kind) ==
   LET ins == [v \in Vars |-> st.val[v]]
+      In == { v \in Vars : st.vord[v] # NONE }          \* the variables ordered so far are the inputs
       status(v) == IF ins[v].k = "prom" THEN st.pst[ins[v].p] ELSE "ful"
-      pendingVs == { v \in Vars : status(v) = "pending" }
-      anyRej == \E v \in Vars : status(v) = "rej"
-      anyFul == \E v \in Vars : status(v) = "ful"
+      pendingVs == { v \in In : status(v) = "pending" }
+      anyRej == \E v \in In : status(v) = "rej"
+      anyFul == \E v \in In : status(v) = "ful"
       RECURSIVE Build(_)
       Build(v) == IF v > NV THEN <<>> ELSE (IF v \in pendingVs THEN <<ins[v].p>> ELSE <<>>) \o Build(v + 1)
       inputSeq == Build(1)
@@ -150,8 +151,8 @@ CombCall(st, kind) ==
                                                           remaining |-> Cardinality(pendingVs), done |-> FALSE]])
        [] kind = "race" ->
             \* the first already-settled input (in order) wins; nobody is cancelled on that path
-            (IF \E v \in Vars : status(v) # "pending"
-             THEN LET v == CHOOSE v \in Vars : status(v) # "pending" /\ \A u \in Vars : u < v => status(u) = "pending"
+            (IF \E v \in In : status(v) # "pending"
+             THEN LET v == CHOOSE v \in In : status(v) # "pending" /\ \A u \in In : u < v => status(u) = "pending"
                   IN setW(st, status(v))
              ELSE [setW(st, "pending") EXCEPT !.cstate = [kind |-> "race", inputs |-> inputSeq, remaining |-> 0, done |-> FALSE]])
        [] kind = "allSettled" -> setW(st, "ful")          \* DEVIATION: settles at once, even over pending inputs
